@@ -15,6 +15,7 @@ def make_module(with_raw_sense=True):
     m.calls = []  # (what, args) for Context/URL/connect/disconnect
     m.handler = None
     m.with_raw_sense = with_raw_sense
+    m.omit_absent_sense = False
 
     class URL:
         def __init__(self, ctx, url):
@@ -102,6 +103,9 @@ def make_module(with_raw_sense=True):
             task.status = status
             if m.with_raw_sense:
                 task.raw_sense = sense
+                if sense is None and m.omit_absent_sense:
+                    # a binding that has the attribute only for tasks that came back with sense data
+                    del task.raw_sense
 
     m.contexts = []
     m.URL = URL
